@@ -43,6 +43,7 @@ def inputs():
         **{f"own-{fmt}": render.render({**base, "reports": [f'taskreport other "other" {{\n  formats {fmt}\n  columns id, start, end\n}}']}).encode()
            for fmt in ("tjp", "html", "ical", "niku")},
         "nested-reports": render.render({**cont, "reports": [nested, own_json]}).encode(),
+        "own-subdir": render.render({**base, "reports": ['taskreport own "sub/own" {\n  formats json, csv\n  columns id, name\n}']}).encode(),
         "unschedulable": render.render(unsched).encode(),
         "crlf": render.render(base).replace("\n", "\r\n").encode(),
         # one task per calendar day across a year end, on a seven-day resource: dates whose ISO week-year, week number or
@@ -61,6 +62,8 @@ def inputs():
         # a valid project that defines no task at all: the report is empty (header only / "data": []), the run succeeds
         "no-tasks": render.render({"resources": R, "tasks": []}).encode(),
         "only-milestones": render.render({"resources": R, "tasks": [{"id": "m1", "milestone": True}, {"id": "g", "children": [{"id": "m2", "milestone": True, "deps": ["m1"]}]}]}).encode(),
+        "utf8-own": render.render({"resources": [{"id": "r1", "name": "Zoë Müller"}], "tasks": [T("a", 90, name="Grüße – 設計"), T("b", 30, deps=["a"], name="naïve")],
+                                   "reports": [own_csv, own_json]}).encode("utf-8"),
         "utf8": render.render({"resources": [{"id": "r1", "name": "Zoë Müller"}], "tasks": [T("a", 90, name="Grüße – 設計"), T("b", 30, deps=["a"], name="naïve")]}).encode("utf-8"),
     }
     return out
@@ -196,6 +199,28 @@ def run(ctx):
                 dj = dict(job, script={k: {"act": "go", "order": perm}}, expect={k: ["scandir", next(e["path"] for e in res["trace"] if e["k"] == k)]})
                 dev_jobs.append(dj)
                 dev_meta.append((m, k, lst, perm))
+    # the same input in another process ENVIRONMENT: plain C locale (no UTF-8 anywhere), another process time zone, TMPDIR reached
+    # through a symbolic link - the bytes on stdout must be those of the ordinary run
+    ENVS = {"c-locale": {"env": {"LC_ALL": "C", "LANG": "C", "PYTHONCOERCECLOCALE": "0", "PYTHONUTF8": "0"}},
+            "tz-tokyo": {"env": {"TZ": "Asia/Tokyo"}}, "tz-newyork": {"env": {"TZ": "America/New_York"}}, "tmp-symlink": {"tmp_symlink": True}}
+    env_jobs, env_meta = [], []
+    for n in ("simple", "utf8", "utf8-own", "own-both", "own-subdir", "nested-reports", "year-end-2024"):
+        if n not in names:
+            continue
+        for en, extra in ENVS.items():
+            for fmt in ("json", "csv"):
+                env_jobs.append({"files": {"in.tjp": ins[n]}, "args": ["report"] + (["--csv"] if fmt == "csv" else []) + ["in.tjp"], **extra})
+                env_meta.append((n, en, fmt))
+    for job, (n, en, fmt), res in zip(env_jobs, env_meta, pool.map("mc.cli.jobs:cli_job", env_jobs, timeout=300, chunk=1)):
+        st.evaluations += 1
+        st.transitions += len(res["trace"])
+        st.nontrivial.add(("env", n, en, fmt))
+        vs = verdict_good(res, fmt, api[n]["rows"], ins[n])
+        if not vs and res["stdout"] != outputs[(n, "path", fmt)]:
+            vs = [("environment", f"stdout differs from the ordinary run: {res['stdout'][:120]!r} vs {outputs[(n, 'path', fmt)][:120]!r}")]
+        for c, d in vs:
+            st.by_clause[c] = st.by_clause.get(c, 0) + 1
+            ctx.violation(c, f"{n}-{en}-{fmt}", {"detail": f"[{n}, {fmt}, environment {en}] {d}", "job": _printable(job), "input": n})
     # same bytes from file and stdin; same data with and without own reports
     for n in names:
         for fmt in ("json", "csv"):
